@@ -227,7 +227,7 @@ def expected : List (String × String × String × Cls) := [
   ("ZodEnum", "PrefaultFunc", "z.withInternals", .modifier),
   ("ZodEnum", "Refine", "checks.NewCustom+utils.RefineParams+z.withCheck", .custom),
   ("ZodEnum", "RefineAny", "checks.NewCustom+utils.RefineParams+z.withCheck", .custom),
-  ("ZodEnum", "StrictParse", "engine.ParsePrimitiveStrict", .entry),
+  ("ZodEnum", "StrictParse", "z.Parse", .entry),
   ("ZodEnum", "Transform", "core.NewZodTransform", .wrapper),
   ("ZodEnum", "With", "z.Check", .custom),
   ("ZodLiteral", "Contains", "", .accessor),
@@ -250,19 +250,36 @@ def expected : List (String × String × String × Cls) := [
   ("ZodLiteral", "PrefaultFunc", "z.withInternals", .modifier),
   ("ZodLiteral", "Refine", "z.withCheck+checks.NewCustom+utils.NormalizeCustomParams", .custom),
   ("ZodLiteral", "RefineAny", "z.withCheck+checks.NewCustom+utils.NormalizeCustomParams", .custom),
-  ("ZodLiteral", "StrictParse", "engine.ParsePrimitiveStrict", .entry),
+  ("ZodLiteral", "StrictParse", "z.Parse", .entry),
   ("ZodLiteral", "Value", "", .accessor),
   ("ZodLiteral", "Values", "", .accessor)
 ]
 
 def key (e : String × String × String) : String := e.1 ++ "." ++ e.2.1 ++ " -> " ++ e.2.2
 
-/-- Entries of the regenerated table that the expectation does not list with the same delegates, and
-    expected entries the source no longer has. -/
+/-- The delegates of a method are part of the expectation only where the C01/C10 models transcribe them:
+    checks, overwrites and user-callback wrappers. For the other classes (entry points, modifiers, wrappers,
+    accessors — owned by C09/C03/C02) only the presence and the class of the method are pinned. -/
+def Cls.pinsDelegates : Cls → Bool
+  | .check _ | .overwrite _ | .custom => true
+  | _ => false
+
+def norm (c : Cls) (e : String × String × String) : String × String × String :=
+  if c.pinsDelegates then e else (e.1, e.2.1, "")
+
+def classOf (recv method : String) : Option Cls :=
+  (expected.find? fun e => e.1 == recv && e.2.1 == method).map (·.2.2.2)
+
+/-- Entries of the regenerated table that the expectation does not list (with the same delegates where
+    they are pinned), and expected entries the source no longer has. -/
 def methodOffenders : List String :=
-  let exp := expected.map fun e => (e.1, e.2.1, e.2.2.1)
-  (Gozod.Gen.primMethods.filter (fun e => !exp.contains e)).map (fun e => "unexpected: " ++ key e) ++
-  (exp.filter (fun e => !Gozod.Gen.primMethods.contains e)).map (fun e => "missing: " ++ key e)
+  let exp := expected.map fun e => norm e.2.2.2 (e.1, e.2.1, e.2.2.1)
+  let got := Gozod.Gen.primMethods.map fun e =>
+    match classOf e.1 e.2.1 with
+    | some c => norm c e
+    | none => e
+  (got.filter (fun e => !exp.contains e)).map (fun e => "unexpected: " ++ key e) ++
+  (exp.filter (fun e => !got.contains e)).map (fun e => "missing: " ++ key e)
 
 /-- The methods C01 does not model, with the recorded reason. -/
 def opaqueMethods : List (String × String × String) :=
